@@ -1,6 +1,7 @@
 (* C07 — Date construction accepts exactly the dates that exist, with the right error. *)
 From JV Require Import Sem Gen Spec SpecX.
 From JV.Proofs Require Import SpecFacts Cal Core AtYmd SpecSets SpecInv.
+Require JV.Proofs.Glue_C07_core.
 Open Scope Z_scope.
 
 (* at_ymd, for every calendar, every year in i32, every month, every day in u32 (Core.at_ymd_class):
@@ -24,7 +25,7 @@ Theorem C07_day_number_meaning : forall c y m d, ValidCal c -> incalb c y m d = 
 Proof. exact jdn_of_ymd_label. Qed.
 Print Assumptions C07_day_number_meaning.
 Theorem C07_result_is_the_calendars_date : forall c v, date_result c v = if in_i32b v then Ok (date_of c v) else Err DateError_Arithmetic.
-Proof. intros c v. unfold date_result, chk_jdn. destruct (in_i32b v); reflexivity. Qed.
+Proof. exact JV.Proofs.Glue_C07_core.C07_result_is_the_calendars_date_lemma. Qed.
 Print Assumptions C07_result_is_the_calendars_date.
 
 (* at_ordinal_date: Ok iff 1 <= ordinal <= number of dates in the year (and the day number fits),
